@@ -340,6 +340,7 @@ CHECKS = {
     ),
     "C16": dict(
         pkg=".", hdir="root", test="TestVerif_C16(Crash|RPC)?", ids=["C16", "C16CRASH", "C16RPC"], wal=True,
+        aux_bins=[dict(alias="cmddastard", pkg="./cmd/dastard", hdir="cmddastard", env="VERIF_C16_MAINBIN")],
         env={"VERIF_NO_GLOBAL_CHANNELS": "1"},
         quick=dict(shards=32, checks=1, per_test={"TestVerif_C16": 20, "TestVerif_C16Crash": 1, "TestVerif_C16RPC": 6}, timeout=900),
         thorough=dict(shards=48, checks=2, per_test={"TestVerif_C16": 600, "TestVerif_C16Crash": 24, "TestVerif_C16RPC": 150}, timeout=5400),
